@@ -458,14 +458,17 @@ def extract_docstring_linenum(node: Str) -> int:
         lineno -= doc.count('\n')
 
     # Leading blank lines are stripped by cleandoc(), so we must
-    # return the line number of the first non-blank line.
-    for ch in doc:
-        if ch == '\n':
-            lineno += 1
-        elif not ch.isspace():
-            break
+    # return the line number of the first line that it keeps:
+    # it only strips the lines that are empty once the indentation is removed,
+    # a blank line that is longer than the indentation stays.
+    lines = doc.expandtabs().split('\n')
+    margin = min((len(line) - len(line.lstrip())
+                  for line in lines[1:] if line.lstrip()), default=0)
+    for i, line in enumerate(lines):
+        if (line[margin:] if i else line.lstrip()):
+            return lineno + i
     
-    return lineno
+    return lineno + len(lines) - 1
 
 def extract_docstring(node: Str) -> Tuple[int, str]:
     """
